@@ -28,7 +28,11 @@ fails, no txmode directives), every number `t0 ≤ |good|` of files applied by e
   touch the failing file (via `Atlas.Tx.plan_count`: the command with a count is the count-less command
   on the directory cut after `n` pending files).
 
-PARTIAL: directives that `modeFor` rejects (`all` per file, a directive under `--tx-mode all`) and the
+* `fail_all_mode_any` — `--tx-mode all` for ANY directory (failing statements anywhere, `txmode` directives
+  of any kind - this mode rejects each of them -, any count, any revision table): a command that fails leaves
+  the database exactly as it found it; `all_mode_ok_no_directive` — one that succeeds met no directive.
+
+PARTIAL: a per-file directive `all` under `--tx-mode file / none` (rejected by `modeFor`) and the
 pinned-tree `mayCommit` (`fixed = false`) are covered by the correspondence run and by `decide`d
 instances, not by general theorems; `dry_run_identity` speaks
 about the operations of the apply loop: the revision-table bootstrap and the `--baseline` revision,
@@ -37,6 +41,7 @@ reported by the correspondence run (known findings).
 -/
 import Lemmas.TxFail
 import Lemmas.TxMixed
+import Lemmas.TxAllAtomic
 import Props.C10
 
 namespace Props.C13
@@ -435,6 +440,31 @@ example : runAll {} (plan { mode := .none } (good2 ++ [badF]) {}).1 =
 example : runAll {} (plan { mode := .file } (good2 ++ [badF]) {}).1 =
     { journal := [(0,0),(0,1)], revs := [⟨2,2,false⟩] } := by decide
 example : runAll {} (plan { mode := .all } (good2 ++ [badF]) {}).1 = {} := by decide
+
+/-- **fail_all_mode_any**: `--tx-mode all` is all-or-nothing for every directory, every directive mix (all of
+them are rejected in this mode), every count and every state of the revision table: a failed command has
+changed nothing. -/
+theorem fail_all_mode_any (cfg : Cfg) (hm : cfg.mode = .all) (dir : List TFile) (db : Db)
+    (hf : (plan cfg dir db).2 = false) : runAll db (plan cfg dir db).1 = db :=
+  plan_all_fail_any cfg hm dir db hf
+
+/-- **all_mode_ok_no_directive**: a successful `--tx-mode all` run applied files without directives only. -/
+theorem all_mode_ok_no_directive (cfg : Cfg) (hm : cfg.mode = .all) (hd : cfg.dryRun = false) (dir : List TFile)
+    (db : Db) (hok : (plan cfg dir db).2 = true) :
+    ∀ f ∈ limit cfg.count (dir.drop (pendingStart db)), f.directive = none := by
+  unfold plan at hok
+  simp only [hd, Bool.false_eq_true, ↓reduceIte] at hok
+  exact planFiles_all_ok_directives cfg hm db _ false (pendingStart db) hok
+
+/-- premises met: two good files, then a file with a directive (each kind), then another file. -/
+def rejDir (m : Mode) : List TFile := [{ ok := [true, true] }, { ok := [true] }, { ok := [true], directive := some m }, { ok := [true] }]
+
+example : ∀ m : Mode, (plan { mode := .all } (rejDir m) {}).2 = false ∧ runAll {} (plan { mode := .all } (rejDir m) {}).1 = {} := by
+  intro m; cases m <;> decide
+/-- the same directory without the directive commits everything at once. -/
+example : (plan { mode := .all } [{ ok := [true, true] }, { ok := [true] }] {}).2 = true ∧
+    runAll {} (plan { mode := .all } [{ ok := [true, true] }, { ok := [true] }] {}).1 =
+      { journal := [(0,0),(0,1),(1,0)], revs := [⟨2,2,false⟩, ⟨1,1,false⟩] } := by decide
 
 /-- a directive mix: under `--tx-mode none` the first file asks for its own transaction, and so does the
 failing one: it is rolled back (`fail_mixed`, first branch); without its directive it keeps its prefix. -/
